@@ -60,12 +60,16 @@ def build_module(ctx, case, ifaces, template=None, extra_cfg=None, extra_files=N
     if td.get("boilerplate-file"):
         files["hdr/boiler.txt"] = "// Copyright Example Corp.\n// All rights reserved.\n"
         td["boilerplate-file"] = "hdr/boiler.txt"
+    per_iface = None
     if td:
-        cfg["template-data"] = td
+        if case.get("td_level") == "iface":   # the same options written on every interface instead of at the top level
+            per_iface = {"config": {"template-data": td}}
+        else:
+            cfg["template-data"] = td
     if extra_cfg:
         cfg.update(extra_cfg)
     srcpath = MOD + "/" + sdir
-    cfg["packages"] = {srcpath: {"interfaces": {i["name"]: None for i in ifaces}}}
+    cfg["packages"] = {srcpath: {"interfaces": {i["name"]: per_iface for i in ifaces}}}
     files[".mockery.yml"] = json.dumps(cfg, ensure_ascii=False, indent=1)
     if extra_files:
         files.update(extra_files)
